@@ -231,11 +231,7 @@ fn shape_list(thorough: bool) -> Vec<Vec<f64>> {
     };
     v.extend(shapes(&nasty_values(), if thorough { 4 } else { 3 }));
     // big functions around size thresholds
-    for n in threshold_sizes(thorough) {
-        if n <= if thorough { 1025 } else { 257 } {
-            v.push(iota(n));
-        }
-    }
+    v.extend(big_shapes(thorough, if thorough { 1025 } else { 257 }));
     v
 }
 
